@@ -251,7 +251,9 @@ class RuntimeName(Name, Object, Callable):
         if isinstance(self.value, type):
             try:
                 self._instance = RuntimeName('__none__', self.value())
-            except TypeError:
+            except Exception:
+                # not every type can be instantiated without arguments
+                # (super() raises RuntimeError, others ValueError, ...)
                 pass
 
         return self._instance
